@@ -969,7 +969,9 @@ def line_3311(A, text):
     return case_line(3311, A, [ord(c) for c in text])
 
 
-THEOREMS = ["C07_parse_print_tag_partial", "C07_parse_print_opt_tag_partial",
+THEOREMS = ["C07_parse_print_tag_partial", "C07_parse_print_opt_tag_partial", "C07_parse_print_size_partial",
+            "C07_parse_print_named_numbers_partial", "C07_parse_print_integer_range_partial",
+            "C07_parse_print_integer_unconstrained_partial",
             "C07_refuted_integer_0_max_becomes_unconstrained", "C07_refuted_size_0_max_becomes_unconstrained",
             "C07_refuted_marker_before_first_component", "C07_refuted_second_extension_marker_overwrites_first",
             "C07_refuted_with_components_dropped", "C07_refuted_type_reference_read_as_keyword",
@@ -988,9 +990,11 @@ class C07(Spec):
                   "for function, fuelled) and the resolver (resolve_scope.rs) is tied to the crate by differential execution of "
                   "whole module texts (op 3301: the complete resolved Model<Asn<Resolved>> or the error with its token must be "
                   "equal); independently the crate's dump is confronted with canon(A) computed in Python from the abstract module "
-                  "A each text was printed from. Theorems: PARTIAL -- parse-after-print statements for the tag sub-language "
-                  "only ([class] number and the optional tag in front of a type; numerals abstracted by the decimal parser), and one "
-                  "vm_compute witness per deviation class; SIZE, ranges, ENUMERATED, literals, OIDs, imports and the mutually recursive type grammar (components / CHOICE / OF) are covered by the tie only.")
+                  "A each text was printed from. Theorems: PARTIAL -- parse-after-print statements for the sub-languages tag "
+                  "([class] number, optional tag in front of a type), SIZE (fixed / range / extensible, numerals or value references), "
+                  "named numbers / named bits, and INTEGER with named numbers and range (MIN/MAX, references, extensible), numerals "
+                  "abstracted by the decimal parser, the forms the parser rewrites excluded as named classes; one vm_compute witness "
+                  "per deviation class; ENUMERATED, literals, OIDs, imports and the mutually recursive type grammar (components / CHOICE / OF) are covered by the tie only.")
     rule = ("grammar-based generator of abstract modules (definitions in order: SEQUENCE/SET with tags, OPTIONAL, DEFAULT "
             "literals of each kind, extension markers at every position incl. before the first component and a second "
             "marker; CHOICE/ENUMERATED with numbers and markers; SEQUENCE OF/SET OF; INTEGER with ranges A..B, MIN/MAX, "
